@@ -1,6 +1,6 @@
 """C16 - A truncated UDP upstream reply is retried over TCP (DESIGN.md section 4, C16)."""
 import json
-import vf
+import vf, xportfam
 
 
 def keyfn(ev, inv):
@@ -22,6 +22,9 @@ def run(ctx):
         lines = open(t).read().splitlines()
         ctx.sample({"trace_excerpt": [json.loads(x) for x in lines[20:26]]})
         ctx.validate("FallbackTrace", t, keyfn, describe=describe, timeout=900, require_events=1000)
+    # the TCP leg is the one-at-a-time transport: what its caller gets is the outcome of its own exchange and
+    # stays the caller's (behaviours of ReuseStep replayed into the real transport)
+    xportfam.reuse_replay(ctx, drv, "C16")
     ctx.assumptions += [
         "one scripted server owns the UDP and the TCP socket of the same port: a TCP leg sent elsewhere cannot produce the expected TCP reply",
         "outcome classes are timing-free: the caller's deadline (300 ms) is ample for local replies (<= 8 ms) and shorter than any internal time-out",
